@@ -1,4 +1,5 @@
 import SstModel.Lemmas.Faulty
+import SstModel.Lemmas.FaultyScan
 import SstModel.Props.ReaderWF
 /-
   C07 (table level) — An alteration of stored bytes confined to ONE data block never turns into a wrong
@@ -196,6 +197,192 @@ theorem C07_open_get (cmp : Cmp) (hc : cmp.Lawful) (p : FilterPolicy) (t : Table
   · exact .inr (h3 h)
   · exact .inl (h4 h)
 
+/-! ### scans of a damaged table -/
+
+/-- C07 (scans): on the damaged image (fault-free source), from a before-first iterator (a fresh iterator,
+    or any iterator after `reset`), the forward scan yields exactly the entries of every data block other
+    than the damaged one — only original entries, in table order, every entry of each block whose bytes
+    still verify — and then `none`: `t.entries.length - |d0| + 1` calls of `next`. `pre` / `post` are the
+    blocks before / after `d0` (a block occurs once in a well-formed table). The invariants are kept and
+    the iterator is before-first again. -/
+theorem C07_scan (cmp : Cmp) (hc : cmp.Lawful) (p : FilterPolicy) (t : TableImg) (hwf : t.WF cmp)
+    (fv : Option Bytes) (d0 : DBlock) (img' : Bytes) (hdm : Damaged p t d0 img')
+    (tb : Table) (hop : Opened tb t cmp p fv)
+    (pre post : List DBlock) (hsplit : t.blocks = pre ++ d0 :: post)
+    (w : World) (hcw : CleanWorld w tb.file img') (hcoh : CoherentBut w tb.cacheId t d0)
+    (it : TableIter) (hs : SimT t tb it none) :
+    ∃ w' it', it.run (List.replicate (t.entries.length - d0.blk.kvs.length + 1) IterOp.next) w
+          = (w', .ok (it', ((pre ++ post).flatMap (·.blk.kvs)).map (fun e => IterOut.entry (some e))
+                            ++ [IterOut.entry none]))
+      ∧ CleanWorld w' tb.file img' ∧ CoherentBut w' tb.cacheId t d0 ∧ SimT t tb it' none := by
+  obtain ⟨w', it', hrun, h1, h2, h3⟩ :=
+    FT.scan_dmg cmp hc p t hwf fv d0 img' hdm tb hop pre post hsplit w hcw hcoh it hs
+  have hk := FT.entries_split cmp hc p t hwf fv d0 img' hdm tb hop pre post hsplit
+  have : t.entries.length - d0.blk.kvs.length = ((pre ++ post).flatMap (·.blk.kvs)).length := by omega
+  rw [this]
+  exact ⟨w', it', hrun, h1, h2, h3⟩
+
+/-- the damaged block has a position: the split `C07_scan` asks for exists -/
+theorem C07_scan_split (p : FilterPolicy) (t : TableImg) (d0 : DBlock) (img' : Bytes)
+    (hdm : Damaged p t d0 img') : ∃ pre post, t.blocks = pre ++ d0 :: post :=
+  List.append_of_mem hdm.mem
+
+/-- C07 (open + scan, end to end): a clean world holding the damaged image, an empty cache: open succeeds,
+    a fresh iterator exists and its forward scan returns exactly the entries outside the damaged block -/
+theorem C07_open_scan (cmp : Cmp) (hc : cmp.Lawful) (p : FilterPolicy) (t : TableImg) (hwf : t.WF cmp)
+    (fv : Option Bytes) (d0 : DBlock) (img' : Bytes) (hdm : Damaged p t d0 img')
+    (hfv : FilterView p t fv) (pre post : List DBlock) (hsplit : t.blocks = pre ++ d0 :: post)
+    (w : World) (file : Nat) (hcw : CleanWorld w file img') (hempty : w.cache.entries = []) :
+    ∃ w1 tb it w2 it2, Table.new ⟨cmp, p⟩ file img'.length w = (w1, .ok tb)
+      ∧ TableIter.new tb w1 = (w1, .ok it)
+      ∧ it.run (List.replicate (t.entries.length - d0.blk.kvs.length + 1) IterOp.next) w1
+          = (w2, .ok (it2, ((pre ++ post).flatMap (·.blk.kvs)).map (fun e => IterOut.entry (some e))
+                            ++ [IterOut.entry none])) := by
+  obtain ⟨w1, tb, hnew, hop, hfile, _, hcw1, _, hent, _⟩ :=
+    FT.open_dmg cmp hc p t hwf fv d0 img' hdm hfv w file hcw
+  have hcoh : CoherentBut w1 tb.cacheId t d0 := by
+    intro off c hmem
+    rw [hent, hempty] at hmem
+    cases hmem
+  obtain ⟨it, hit, hs⟩ := iter_new_ok cmp hc p t hwf fv tb hop w1
+  obtain ⟨w2, it2, hrun, _⟩ :=
+    C07_scan cmp hc p t hwf fv d0 img' hdm tb hop pre post hsplit w1 (hfile ▸ hcw1) hcoh it hs
+  exact ⟨w1, tb, it, w2, it2, hnew, hit, hrun⟩
+
+/-! ### damage to checksummed metadata is detected -/
+
+/-- C07 (block level, both cases at once): an alteration confined to ≤ 4 consecutive bytes lying inside
+    contents + type byte of a verified physical block, or inside its 4 checksum bytes (`FT.WindowIn`),
+    makes the block `Corruption` -/
+theorem C07_block_altered_any (pre w w' post : Bytes) (h : BlockHandle) (c : Bytes)
+    (hlen : w.length = w'.length) (h4 : w.length ≤ 4) (hne : w ≠ w')
+    (hin : FT.WindowIn h pre.length w.length)
+    (hb : h.offset + h.size + 5 ≤ (pre ++ w ++ post).length)
+    (hok : blockAt (pre ++ w ++ post) h = .ok c) :
+    blockAt (pre ++ w' ++ post) h = .err .corruption :=
+  FT.blockAt_altered_any pre w w' post h c hlen h4 hne hin hb hok
+
+section
+variable (cmp : Cmp) (hc : cmp.Lawful) (p : FilterPolicy) (t : TableImg) (hwf : t.WF cmp)
+  (img' : Bytes) (hlen : img'.length = t.img.length)
+  (hfoot : img'.drop (img'.length - 48) = t.img.drop (t.img.length - 48))
+include hwf hlen hfoot
+
+/-- C07 (index block, abstract form): same length, same footer, the index block no longer verifies:
+    `Table::new` fails with `Corruption`, whatever the reader options; the cache is untouched -/
+theorem C07_index_unreadable_detected (hbad : blockAt img' t.indexHandle = .err .corruption)
+    (opt : ROpts) (w : World) (file : Nat) (hcw : CleanWorld w file img') :
+    ∃ w', Table.new opt file img'.length w = (w', .err .corruption) ∧ w'.cache = w.cache :=
+  FT.open_index_dmg cmp t hwf img' hlen hfoot hbad opt w file hcw
+
+/-- C07 (metaindex block, abstract form): the index block is intact, the metaindex block no longer
+    verifies: `Table::new` fails with `Corruption` -/
+theorem C07_metaindex_unreadable_detected
+    (hindex : cleanBuf img' t.indexHandle.offset (t.indexHandle.size + 5)
+      = cleanBuf t.img t.indexHandle.offset (t.indexHandle.size + 5))
+    (hbad : blockAt img' t.metaHandle = .err .corruption)
+    (opt : ROpts) (w : World) (file : Nat) (hcw : CleanWorld w file img') :
+    ∃ w', Table.new opt file img'.length w = (w', .err .corruption) ∧ w'.cache = w.cache :=
+  FT.open_meta_dmg cmp t hwf img' hlen hfoot hindex hbad opt w file hcw
+
+include hc in
+/-- C07 (filter block, abstract form): index and metaindex blocks intact, the filter block the metaindex
+    records under the READER's policy name (non-empty handle, in bounds) no longer verifies: `Table::new`
+    fails with `Corruption` — the filter is neither used nor silently dropped -/
+theorem C07_filter_unreadable_detected
+    (hindex : cleanBuf img' t.indexHandle.offset (t.indexHandle.size + 5)
+      = cleanBuf t.img t.indexHandle.offset (t.indexHandle.size + 5))
+    (hmeta : cleanBuf img' t.metaHandle.offset (t.metaHandle.size + 5)
+      = cleanBuf t.img t.metaHandle.offset (t.metaHandle.size + 5))
+    (v : Bytes) (fh : BlockHandle) (n : Nat) (hmem : (Table.filterName p, v) ∈ t.metaix.kvs)
+    (hd : BlockHandle.tryDecode v = some (fh, n)) (hz : fh.size > 0) (hb : InBounds fh t.img.length)
+    (hbad : blockAt img' fh = .err .corruption)
+    (w : World) (file : Nat) (hcw : CleanWorld w file img') :
+    ∃ w', Table.new ⟨cmp, p⟩ file img'.length w = (w', .err .corruption) ∧ w'.cache = w.cache :=
+  FT.open_filter_dmg cmp hc p t hwf img' hlen hfoot hindex hmeta v fh n hmem hd hz hb hbad w file hcw
+
+end
+
+section
+variable (cmp : Cmp) (hc : cmp.Lawful) (p : FilterPolicy) (t : TableImg) (hwf : t.WF cmp)
+  (pre w w' post : Bytes) (himg : t.img = pre ++ w ++ post)
+  (hlen : w.length = w'.length) (h4 : w.length ≤ 4) (hne : w ≠ w')
+  (hfoot : pre.length + w.length ≤ t.img.length - 48)
+include hwf himg hlen h4 hne hfoot
+
+/-- C07 (index block): replacing ≤ 4 consecutive bytes inside the physical index block (contents + type
+    byte, or the checksum field), the footer lying outside the window: `Table::new` on the altered file
+    fails with `Corruption` -/
+theorem C07_index_damage_detected (hin : FT.WindowIn t.indexHandle pre.length w.length)
+    (opt : ROpts) (wd : World) (file : Nat) (hcw : CleanWorld wd file (pre ++ w' ++ post)) :
+    ∃ w1, Table.new opt file (pre ++ w' ++ post).length wd = (w1, .err .corruption)
+      ∧ w1.cache = wd.cache := by
+  have hl : (pre ++ w' ++ post).length = t.img.length := by
+    rw [himg]; simp only [List.length_append]; omega
+  have hft : (pre ++ w' ++ post).drop ((pre ++ w' ++ post).length - 48) = t.img.drop (t.img.length - 48) := by
+    rw [hl, himg]
+    exact FT.drop_outside_window pre w w' post hlen _ (by rw [← himg]; exact hfoot)
+  have hb := hwf.indexBounds.2
+  simp only [Consts.tableBlockCksumLen, Consts.tableBlockCompressLen] at hb
+  have hok := (FT.blockAt_of_tableBlockAt hwf.indexRead).1
+  rw [himg] at hok hb
+  exact FT.open_index_dmg cmp t hwf _ hl hft
+    (FT.blockAt_altered_any pre w w' post _ _ hlen h4 hne hin (by omega) hok) opt wd file hcw
+
+/-- C07 (metaindex block): the same for the metaindex block, the index block lying outside the window -/
+theorem C07_metaindex_damage_detected (hin : FT.WindowIn t.metaHandle pre.length w.length)
+    (hindex : FT.Outside pre.length (pre.length + w.length) t.indexHandle)
+    (opt : ROpts) (wd : World) (file : Nat) (hcw : CleanWorld wd file (pre ++ w' ++ post)) :
+    ∃ w1, Table.new opt file (pre ++ w' ++ post).length wd = (w1, .err .corruption)
+      ∧ w1.cache = wd.cache := by
+  have hl : (pre ++ w' ++ post).length = t.img.length := by
+    rw [himg]; simp only [List.length_append]; omega
+  have hft : (pre ++ w' ++ post).drop ((pre ++ w' ++ post).length - 48) = t.img.drop (t.img.length - 48) := by
+    rw [hl, himg]
+    exact FT.drop_outside_window pre w w' post hlen _ (by rw [← himg]; exact hfoot)
+  have hb := hwf.metaBounds.2
+  simp only [Consts.tableBlockCksumLen, Consts.tableBlockCompressLen] at hb
+  have hok := (FT.blockAt_of_tableBlockAt hwf.metaRead).1
+  have hix : cleanBuf (pre ++ w' ++ post) t.indexHandle.offset (t.indexHandle.size + 5)
+      = cleanBuf t.img t.indexHandle.offset (t.indexHandle.size + 5) := by
+    rw [himg]; exact FT.cleanBuf_outside_window pre w w' post hlen _ _ hindex
+  rw [himg] at hok hb
+  exact FT.open_meta_dmg cmp t hwf _ hl hft hix
+    (FT.blockAt_altered_any pre w w' post _ _ hlen h4 hne hin (by omega) hok) opt wd file hcw
+
+include hc in
+/-- C07 (filter block): the same for the filter block the reader's policy sees (`FilterView p t (some fb)`:
+    the metaindex has an entry under this policy's name with a non-empty handle), index and metaindex
+    blocks lying outside the window: `Table::new` fails with `Corruption` -/
+theorem C07_filter_damage_detected (fb : Bytes) (hfv : FilterView p t (some fb))
+    (hin : ∀ v fh n, (Table.filterName p, v) ∈ t.metaix.kvs → BlockHandle.tryDecode v = some (fh, n) →
+      FT.WindowIn fh pre.length w.length)
+    (hindex : FT.Outside pre.length (pre.length + w.length) t.indexHandle)
+    (hmeta : FT.Outside pre.length (pre.length + w.length) t.metaHandle)
+    (wd : World) (file : Nat) (hcw : CleanWorld wd file (pre ++ w' ++ post)) :
+    ∃ w1, Table.new ⟨cmp, p⟩ file (pre ++ w' ++ post).length wd = (w1, .err .corruption)
+      ∧ w1.cache = wd.cache := by
+  have hl : (pre ++ w' ++ post).length = t.img.length := by
+    rw [himg]; simp only [List.length_append]; omega
+  have hft : (pre ++ w' ++ post).drop ((pre ++ w' ++ post).length - 48) = t.img.drop (t.img.length - 48) := by
+    rw [hl, himg]
+    exact FT.drop_outside_window pre w w' post hlen _ (by rw [← himg]; exact hfoot)
+  have hix : cleanBuf (pre ++ w' ++ post) t.indexHandle.offset (t.indexHandle.size + 5)
+      = cleanBuf t.img t.indexHandle.offset (t.indexHandle.size + 5) := by
+    rw [himg]; exact FT.cleanBuf_outside_window pre w w' post hlen _ _ hindex
+  have hmx : cleanBuf (pre ++ w' ++ post) t.metaHandle.offset (t.metaHandle.size + 5)
+      = cleanBuf t.img t.metaHandle.offset (t.metaHandle.size + 5) := by
+    rw [himg]; exact FT.cleanBuf_outside_window pre w w' post hlen _ _ hmeta
+  cases hfv with
+  | present v fh n fb hm hd hz hb hr hw =>
+    have hb2 := hb.2
+    simp only [Consts.tableBlockCksumLen, Consts.tableBlockCompressLen] at hb2
+    rw [himg] at hr hb2
+    exact FT.open_filter_dmg cmp hc p t hwf _ hl hft hix hmx v fh n hm hd hz hb
+      (FT.blockAt_altered_any pre w w' post _ _ hlen h4 hne (hin v fh n hm hd) (by omega) hr) wd file hcw
+
+end
+
 end Sst
 
 #print axioms Sst.C07_block_altered
@@ -211,3 +398,13 @@ end Sst
 #print axioms Sst.C07_other_keys_exact
 #print axioms Sst.C07_other_stored_keys_found
 #print axioms Sst.C07_open_get
+#print axioms Sst.C07_scan
+#print axioms Sst.C07_scan_split
+#print axioms Sst.C07_open_scan
+#print axioms Sst.C07_block_altered_any
+#print axioms Sst.C07_index_unreadable_detected
+#print axioms Sst.C07_metaindex_unreadable_detected
+#print axioms Sst.C07_filter_unreadable_detected
+#print axioms Sst.C07_index_damage_detected
+#print axioms Sst.C07_metaindex_damage_detected
+#print axioms Sst.C07_filter_damage_detected
